@@ -45,7 +45,10 @@ RULE_ADDED = (
               ' other iteration, other image). '
               ' '
               'Round 12: authorization files with 11, 12 and 16 signatures (thresholds up to th'
-              'e last one). ')
+              'e last one). '
+              ' '
+              'Round 13: authorization objects used on after add_signature refused a signature '
+              '(more signatures, save, load). ')
 RULE = RULE + " " + RULE_ADDED.strip()
 ASSUMPTIONS = [
     "own Keccak-256 (pv/oracle/hashes.py) and OpenSSL verification are the oracles",
@@ -377,6 +380,46 @@ def run_case(acc, cseed, tmpdir):
     acc.evaluations += 1
     if sa.to_dict() != sa2.to_dict() or json.load(open(p2)) != json.load(open(out)):
         bad("authorization-file-changes-on-save-load")
+    # ---- a signature refused by add_signature is refused: the object goes on as if it had
+    # never been offered (a script that collects signatures from several people and skips
+    # the ones turned down) - what it saves loads back and holds the accepted ones, in order
+    sa3 = SignerAuthorization.from_jsonfile(out)
+    held = list(sa3.to_dict()["signatures"])
+    offered = 0
+    for k_ in range(rng.randint(2, 5)):
+        if rng.random() < 0.5:
+            junk = rng.choice(["zz", "3000", "", "30060201010201", held[0][:-2] if held else "00",
+                               5, None, "0x" + (held[0] if held else "00")])
+            try:
+                sa3.add_signature(junk)
+                # (accepted after all: then it is a signature like any other)
+                held.append(junk)
+            except Exception:
+                offered += 1
+        else:
+            good_ = g1.sign(g1.new_key(rng), rng.randbytes(32), rng).hex()
+            try:
+                sa3.add_signature(good_)
+                held.append(good_)
+            except Exception as e:
+                bad("well-formed-signature-refused-after-a-refused-one" if offered else
+                    "well-formed-signature-refused", exc=repr(e)[:200])
+                break
+    acc.count("objects_used_on_after_refusing_a_signature", 1 if offered else 0)
+    acc.evaluations += 1
+    if list(sa3.to_dict()["signatures"]) != held:
+        bad("object-holds-other-signatures-than-the-accepted-ones",
+            holds=[str(x)[:20] for x in sa3.to_dict()["signatures"]], accepted=len(held),
+            refused=offered)
+    else:
+        p4 = os.path.join(tmpdir, "auth-collected.json")
+        try:
+            sa3.save_to_jsonfile(p4)
+            if SignerAuthorization.from_jsonfile(p4).to_dict() != sa3.to_dict():
+                bad("authorization-file-changes-on-save-load:after-a-refused-signature")
+        except Exception as e:
+            bad("authorization-object-does-not-survive-save-load:after-a-refused-signature",
+                exc=repr(e)[:200])
     # loader refuses malformed files
     for mut in ("hash", "iteration", "signature", "version"):
         d2 = json.load(open(out))
